@@ -19,6 +19,8 @@ def run_harness(bindir, binary, test, mode, seed, start, count, tier, replay=Non
             json.dump(run, f)
         env = simlib.base_env(sc.path("home"), extra_env)
         env["VERIF_RUN"] = rf
+        if replay is not None and not os.environ.get("VERIF_STRICT_REPLAY"):
+            env["VERIF_LENIENT_REPLAY"] = "1"   # recorded choices that no longer fit the code: continue with the seeded policy
         p = subprocess.Popen([os.path.join(bindir, binary + ".test"), "-test.run", "^%s$" % test, "-test.timeout", "0"],
                              cwd=sc.path("w"), env=env, stdin=subprocess.DEVNULL, stdout=subprocess.PIPE, stderr=subprocess.PIPE, start_new_session=True)
         try:
@@ -121,6 +123,8 @@ def run_cmap(bindir, seed, start, count, replay=None, timeout=600):
             json.dump(run, f)
         env = simlib.base_env(sc.path("home"))
         env["VERIF_RUN"] = rf
+        if replay is not None and not os.environ.get("VERIF_STRICT_REPLAY"):
+            env["VERIF_LENIENT_REPLAY"] = "1"   # recorded choices that no longer fit the code: continue with the seeded policy
         p = subprocess.run([os.path.join(bindir, "cmap.test"), "-test.run", "^TestVerifCmap$", "-test.timeout", "0"], cwd=sc.root, env=env,
                            stdin=subprocess.DEVNULL, stdout=subprocess.PIPE, stderr=subprocess.PIPE, timeout=timeout)
         results = []
@@ -201,6 +205,8 @@ def run_core(bindir, seed, start, count, replay=None, timeout=600):
             json.dump(run, f)
         env = simlib.base_env(sc.path("home"))
         env["VERIF_RUN"] = rf
+        if replay is not None and not os.environ.get("VERIF_STRICT_REPLAY"):
+            env["VERIF_LENIENT_REPLAY"] = "1"   # recorded choices that no longer fit the code: continue with the seeded policy
         p = subprocess.run([os.path.join(bindir, "core.test"), "-test.run", "^TestVerifCore$", "-test.timeout", "0"], cwd=sc.path("w"), env=env,
                            stdin=subprocess.DEVNULL, stdout=subprocess.PIPE, stderr=subprocess.PIPE, timeout=timeout)
         results = []
